@@ -87,6 +87,60 @@ CONTEXTS = {
         "struct S": ("struct S", "::S"), "enum E": ("enum E", "::E"),
         "struct N::T": ("struct N::T", "::N::T"), "struct N::T::In": ("struct N::T::In", "::N::T::In")}),
 }
+# explicit / partial specializations whose members differ from the primary template's, named as
+# X<args>::member from scopes nested in (or equal to) the scope that declares the specialization
+SPEC_PRELUDE = """\
+namespace SN { struct SS { int s; }; }
+template<class T> struct Tr { typedef T type; static const int k = 1; struct In { int p; }; };
+template<> struct Tr<int> { typedef long type; static const int k = 2; struct In { long q; }; };
+template<class T> struct Tr<T*> { typedef T **type; static const int k = 3; struct In { char r; }; };
+template<> struct Tr<SN::SS> { typedef short type; static const int k = 4; struct In { short s; }; };
+template<int N> struct Tv { typedef int type; static const int k = 1; struct In { int p; }; };
+template<> struct Tv<7> { typedef double type; static const int k = 5; struct In { double d; }; };
+template<int N> struct Kc { int z; };
+namespace PN {
+template<class T> struct Tq { typedef T type; struct In { int p; }; };
+template<> struct Tq<int> { typedef unsigned long type; struct In { long q; }; };
+template<class T> struct Tq<T*> { typedef T ***type; struct In { char r; }; };
+}
+"""
+
+
+def _spec_bases(prefixes, tmpl, qual):
+    out = {}
+    args = ["int", "char", "int *", "char *", "SN::SS"] if tmpl != "Tv" else ["7", "3"]
+    for a in args:
+        if tmpl == "Tq" and a == "SN::SS":
+            continue
+        for mem in ("type", "In"):
+            for pre in prefixes:
+                sp = "%s%s<%s>::%s" % (pre, tmpl, a, mem)
+                out[sp] = (sp, "%s%s<%s>::%s" % (qual, tmpl, a.replace("SN::", "::SN::"), mem))
+        if tmpl != "Tq":
+            sp = "Kc<%s<%s>::k>" % (tmpl, a)
+            out[sp] = (sp, "::Kc< ::%s<%s>::k>" % (tmpl, a.replace("SN::", "::SN::")))
+    return out
+
+
+_SPEC_G = {}
+_SPEC_G.update(_spec_bases(("", "::"), "Tr", "::"))
+_SPEC_G.update(_spec_bases(("", "::"), "Tv", "::"))
+_SPEC_PN = _spec_bases(("", "PN::", "::PN::"), "Tq", "::PN::")
+CONTEXTS["spec-global"] = dict(scope=[], wrap=("", ""), bases=_SPEC_G)
+CONTEXTS["spec-ns"] = dict(scope=["U1"], wrap=("namespace U1 { ", " }"), bases=_SPEC_G)
+CONTEXTS["spec-ns2"] = dict(scope=["U1", "U2"], wrap=("namespace U1 { namespace U2 { ", " } }"),
+                            bases=_SPEC_G)
+CONTEXTS["spec-class"] = dict(scope=["Sc"], member=True, open="struct Sc { int sc;", close="};",
+                              bases=_SPEC_G)
+CONTEXTS["spec-nested"] = dict(scope=["So", "Si"], member=True,
+                               open="struct So { struct Si { int si;", close="}; };", bases=_SPEC_G)
+CONTEXTS["spec-pn-same"] = dict(scope=["PN"], wrap=("namespace PN { ", " }"), bases=_SPEC_PN)
+CONTEXTS["spec-pn-inner"] = dict(scope=["PN", "Pi"], wrap=("namespace PN { namespace Pi { ", " } }"),
+                                 bases=_SPEC_PN)
+CONTEXTS["spec-pn-class"] = dict(scope=["PN", "Cq"], member=True, chk_ns=["PN"],
+                                 open="namespace PN { struct Cq { int cq;", close="}; }",
+                                 bases=_SPEC_PN)
+
 # template-ARGUMENT family: the base type of the declaration is a template-id with composite
 # arguments (lib_c06targ.py); spelled the same in the header and in the checker
 CONTEXTS["targ"] = dict(scope=[], wrap=("", ""),
@@ -97,7 +151,7 @@ PRELUDE = L.PRELUDE + """\
 namespace M { using N::T; }
 namespace NA = N;
 template<class X = N::T, int n = 2> struct W { X w[n]; };
-""" + TA.PRELUDE
+""" + TA.PRELUDE + SPEC_PRELUDE
 CLASS_OPEN = "struct Sh { struct T { int sh; }; struct In { int shi; };"
 CLASS_CLOSE = "};"
 
@@ -145,10 +199,11 @@ class Case:
             return self.decl()
         return c["wrap"][0] + self.decl() + c["wrap"][1]
 
-    def expected(self, term=None):
-        """Fully qualified C++ type-id the entity must have, rendered by the generator."""
+    def expected(self, term=None, base_text=None):
+        """Fully qualified C++ type-id the entity must have, rendered by the generator.
+        base_text: override of the base type's text (deviation models on the base)."""
         t = term if term is not None else self.term
-        q = self.spell(True)
+        q = self.spell(True) if base_text is None else (lambda b: base_text)
         txt = L.render(t, "", q, qualified=True)
         if self.role == "param":
             return "fn_param< %s >" % txt
@@ -177,6 +232,8 @@ def enumerate_cases(tier):
         if ctx == "targ":
             bases = TA.template_ids(tier)
             d = 0 if tier == "quick" else 1
+        if ctx.startswith("spec-"):
+            d = 0 if tier == "quick" else 1
         for base in bases:
             for t in L.terms(base, d):
                 for role in ROLES:
@@ -195,13 +252,21 @@ def build_header(cases):
         if not CONTEXTS[c.ctx].get("member"):
             lines.append(c.line_text())
             c.line = len(lines)
-    members = [c for c in cases if CONTEXTS[c.ctx].get("member")]
-    if members:
-        lines.append(CLASS_OPEN)
-        for c in members:
-            lines.append(c.line_text())
-            c.line = len(lines)
-        lines.append(CLASS_CLOSE)
+    blocks = []
+    for c in cases:
+        x = CONTEXTS[c.ctx]
+        if x.get("member"):
+            oc = (x.get("open", CLASS_OPEN), x.get("close", CLASS_CLOSE))
+            if oc not in blocks:
+                blocks.append(oc)
+    for oc in blocks:
+        lines.append(oc[0])
+        for c in cases:
+            x = CONTEXTS[c.ctx]
+            if x.get("member") and (x.get("open", CLASS_OPEN), x.get("close", CLASS_CLOSE)) == oc:
+                lines.append(c.line_text())
+                c.line = len(lines)
+        lines.append(oc[1])
     return "\n".join(lines) + "\n"
 
 
@@ -380,8 +445,10 @@ def make_probes(cases, printed, dump, oc_text):
                     body += ";"
                 if ctx.get("member"):
                     holder = "ChkSh_%s" % n
-                    setup = "struct %s : Sh { %s };" % (holder, body)
-                    ref = "::%s::%s" % (holder, chk)
+                    setup = "struct %s : ::%s { %s };" % (holder, "::".join(ctx["scope"]), body)
+                    ref = "::" + "::".join(ctx.get("chk_ns", []) + [holder, chk])
+                    for ns in reversed(ctx.get("chk_ns", [])):
+                        setup = "namespace %s { %s }" % (ns, setup)
                 else:
                     setup = body
                     for s in reversed(ctx["scope"]):
@@ -481,6 +548,13 @@ def run_checker(d, probes, prelude=None):
                     if p.chan == "Dp":
                         a = "std::add_pointer_t< %s >" % a
                     alts.append(("+".join(names), a))
+            if p.chan != "W" and not hasattr(c, "alts") and getattr(c, "ctx", "").startswith("spec-"):
+                prim = spec_primary_text(L.base_of(c.term))
+                if prim is not None:
+                    a = c.expected(base_text=prim)
+                    if p.chan == "Dp":
+                        a = "std::add_pointer_t< %s >" % a
+                    alts.append(("specialization-ignored", a))
             wrap = (lambda x: "bare< %s >" % x) if p.norm else (lambda x: x)
             conds = ["std::is_same< %s, %s >::value" % (wrap(exp), wrap("pr_%d" % i))]
             for nm, a in alts:
@@ -1419,6 +1493,18 @@ def outer_core(c):
     return L.strip_cv(c.term)[0]
 
 
+def spec_primary_text(base):
+    """For X<A>::type where X<A> is a PARTIAL specialization or the specialization on a class
+    type from a namespace: the type the PRIMARY template's member would have (known finding
+    deviation:specialization-ignored).  None for every other base -- in particular for the
+    plain full specializations Tr<int>, Tv<7>, Tq<int>, which must be honoured."""
+    m = re.fullmatch(r"(?:::)?(?:PN::)?T[rq]<(int \*|char \*|SN::SS)>::type", base)
+    if not m:
+        return None
+    return {"int *": "int *", "char *": "char *", "SN::SS": "::SN::SS"}[m.group(1)]
+
+
+NESTED_DROPPED_ARGS = ("<char>", "<int *>", "<char *>", "<SN::SS>", "<3>")
 COMMA_ARGS = ("(1, 2)", "::value, 2)")
 
 
@@ -1434,7 +1520,12 @@ def targ_symptoms(c, text, verdict):
         if "1,2" in flat and "(1,2)" not in flat or "::value,2" in flat and "::value,2)" not in flat:
             items.append(("symbol:template-argument/comma-expression",
                           "comma expression printed without its parentheses"))
-    if ">::value" in base and "Num::value" in flat:
+    if base.endswith("::In") and any(a in base for a in NESTED_DROPPED_ARGS) \
+            and re.search(r"\bT[rvq]::In\b", text):
+        items.append(("symbol:nested-class-of-template-instantiation",
+                      "template arguments of the enclosing instantiation dropped"))
+    if (">::value" in base and "Num::value" in flat) or \
+            (">::k>" in base and re.search(r"\bT[rv]::k\b", text)):
         items.append(("symbol:template-argument/member-of-template-id",
                       "template arguments of the qualifying template-id dropped"))
     return items
@@ -1555,7 +1646,8 @@ def main():
                 outcome += " probes=%s" % "".join(sorted({p.chan[0] + p.chan[1:2] for p in ps}))
                 if bad:
                     outcome += " DEVIATES"
-                ck.note(c.key, nontrivial=(len(mods) >= 1 or c.ctx == "targ") and len(ps) >= 1,
+                ck.note(c.key, nontrivial=(len(mods) >= 1 or c.ctx == "targ"
+                                           or c.ctx.startswith("spec-")) and len(ps) >= 1,
                         outcome=outcome,
                         family=c.ctx + "/" + c.role,
                         sample={"declaration": c.line_text(), "accepted": c.accept is None,
@@ -1575,7 +1667,7 @@ def main():
                     if v.startswith("alt:"):
                         for nm in v[4:].split("+"):
                             items.append(("deviation:" + nm, nm))
-                    elif c.ctx == "targ" and targ_symptoms(c, tx, v):
+                    elif (c.ctx == "targ" or c.ctx.startswith("spec-")) and targ_symptoms(c, tx, v):
                         items += targ_symptoms(c, tx, v)
                     else:
                         items.append((None, "%s %s" % (ch, v)))
